@@ -217,6 +217,21 @@ def run_property(prop, tier, seed, only=None, e2_fn=None, keep=False):
                 inconclusive.append(f"{s.id}: counterexample without extractable input values: {desc}")
                 continue
             rp = replay_values(scratch, s, r.values, tries=int(s.kv.get("tries", "1")))
+            if all(v == "invalid" for v, _ in rp.values()) and any(x.get("sliced") for x in r.values):
+                # the defaults chosen for sliced-away inputs violate a harness assumption: redo the trace pass unsliced
+                os.environ["VERIF_TRACE_UNSLICED"] = "1"
+                try:
+                    tp = os.path.join(os.path.dirname(r.goto), s.fn + ".trace2.json")
+                    E.run(E.cbmc_cmd(s, r.goto, r.unwindset, extra=["--property", f0["property"], "--trace"]), timeout=s.cap, mem_gb=s.mem, stdout_path=tp)
+                    for item in json.load(open(tp)):
+                        for rr in item.get("result", []):
+                            if "trace" in rr:
+                                r.values = E.extract_values(rr["trace"])
+                    rp = replay_values(scratch, s, r.values, tries=int(s.kv.get("tries", "1")))
+                except Exception:
+                    pass
+                finally:
+                    os.environ.pop("VERIF_TRACE_UNSLICED", None)
             r.replay = {k: list(v) for k, v in rp.items()}
             reproduced = [p for p, (v, _) in rp.items() if v == "reproduced"]
             os.makedirs(REPLAYS, exist_ok=True)
